@@ -653,6 +653,10 @@ def postfix_additive_cases():
         out.append(("bin", bo, ("post", po, i), b))
         out.append(("bin", bo, ("post", po, i), ("bin", "/", b, a)))
         out.append(("bin", bo, ("post", po, i), ("un", "-", b)))
+    # a cast of a unary +/- behind a binary +/-: the type name is never a parenthesised identifier
+    for bo, u in (("+", "+"), ("-", "-"), ("+", "-"), ("-", "+")):
+        for t in ("int64_t", "size8s_t", "int", "unsigned", "uint8_t"):
+            out.append(("bin", bo, a, ("cast", t, ("un", u, b))))
     for pre in ("++", "--"):
         out.append(("cast", "int", ("un", pre, a)))
         out.append(("cast", "int32_t", ("un", pre, a)))
